@@ -1,16 +1,24 @@
-//! E-IDX: deterministic simulation of the built-in indexer (property C18).
+//! E-IDX: deterministic simulation of the built-in indexers (property C18).
 //!
-//! Real code: ckb_indexer's `Indexer<RocksdbStore>` (append / rollback / tip / prune, through
-//! the `verif-hooks` wrapper `VerifIndexer`) over a real RocksDB in a scratch directory, and
-//! `IndexerHandle::{get_cells, get_transactions, get_cells_capacity, get_indexer_tip}`.
+//! Real code, one of two targets per scenario (`Scenario::target`):
+//!  * "rocks": ckb_indexer's `Indexer<RocksdbStore>` (append / rollback / tip / prune, through
+//!    the `verif-hooks` wrapper `VerifIndexer`) over a real RocksDB in a scratch directory, and
+//!    `IndexerHandle::{get_cells, get_transactions, get_cells_capacity, get_indexer_tip}`;
+//!  * "rich": ckb_rich_indexer's `AsyncRichIndexer` (append / rollback, through the
+//!    `verif-hooks` wrapper `VerifRichIndexer`) over SQLite (in memory or a file on tmpfs) and
+//!    `AsyncRichIndexerHandle` with the same four queries, every future run to completion on a
+//!    current-thread tokio runtime owned by the run (`backend.rs`); violation classes carry the
+//!    prefix "rich:". A rich batch runs its scenarios in child processes (one per worker
+//!    thread), because SQLite serialises the threads of one process.
 //! Simulated: the chain (a block tree built here with ckb-types builders; no consensus
 //! validity, only parent linkage and resolvable inputs), the "indexer sync" actor (one
 //! `try_loop_sync` iteration per `Sync` op: roll back while the indexer tip is not on the
 //! main chain, else append the next main-chain block), the clients issuing queries.
 //! Oracles: (1) every answer equals a naive filter over the model's live-cell set /
-//! transaction history of the chain that ends at the indexer's tip; (2) whenever the
-//! indexer returns to a block by rollback, the answers to a fixed query set and the dump of
-//! the live key prefixes equal what they were when that block was the tip before.
+//! transaction history of the chain that ends at the indexer's tip (`oracle.rs` for rocks,
+//! `oracle_rich.rs` for rich); (2) whenever the indexer returns to a block by rollback, the
+//! answers to a fixed query set and the dump of the stored rows (rocks: the live key prefixes;
+//! rich: every row of every table) equal what they were when that block was the tip before.
 
 mod backend;
 mod model;
